@@ -117,3 +117,33 @@ func Harness_C16_Reject() {
 		verifrt.Assert(err != nil, "a point that is not on the named curve is rejected")
 	}
 }
+
+// Harness_C16_RejectPaddedRealKey: the JWK of a real key whose x or y carries one extra leading zero byte (33 / 49 /
+// 67 bytes: the same number, wrong width) or lacks its leading zero byte (when the coordinate has one) is rejected.
+func Harness_C16_RejectPaddedRealKey() {
+	verifrt.KeyLeadingZeros(1)
+	curve, name, size := c16Curve(verifrt.Choose("curve", 4))
+	priv := c16Key(curve, size)
+	x, y := priv.X.FillBytes(make([]byte, size)), priv.Y.FillBytes(make([]byte, size))
+	which := verifrt.Choose("coordinate", 2)
+	mod := x
+	if which == 1 {
+		mod = y
+	}
+	switch verifrt.Choose("width", 2) {
+	case 0:
+		mod = append([]byte{0}, mod...)
+	case 1:
+		verifrt.Assume(mod[0] == 0) // only a coordinate with a leading zero byte has a shorter spelling of the same number
+		mod = mod[1:]
+	}
+	if which == 0 {
+		x = mod
+	} else {
+		y = mod
+	}
+	jwk := &jws.JWK{Kty: "EC", Crv: name, X: base64.RawURLEncoding.EncodeToString(x), Y: base64.RawURLEncoding.EncodeToString(y)}
+	_, err := parseJWK(jwk)
+	verifrt.Reach("checked")
+	verifrt.Assert(err != nil, "a coordinate of the wrong width is rejected even when it denotes a point on the curve")
+}
